@@ -61,6 +61,11 @@ CLAIMED.update({
             "Metamorphic comparison between simulated runs; jwalk's rayon pool is uncontrolled (stated)."),
 })
 
+CLAIMED.update({
+    "C08": ("exploration", "3 C08", TECH + "generated accounting files of 12 documented layouts (template record + marker strings, time patterns incl. duplicates, null records, containers, block sizes, windows); reference model = stable sort of non-null records by embedded time; each printed line must carry its own record's markers and time",
+            "Model oracle over simulated end-to-end runs; layouts x time patterns x containers sampled; known findings F-C08b / F-C08c attributed by signature."),
+})
+
 NOT_APPLICABLE = {
     "C04": "pure function from (line bytes, pattern table, fallback zone) to an instant: no schedule, clock, fault or interleaving to simulate (DESIGN section 5)",
     "C16": "pure terminating recursion on a file-name string: no I/O, time or concurrency to simulate (DESIGN section 5)",
